@@ -5,6 +5,7 @@ import (
 	"encoding/json"
 	"fmt"
 	"math/big"
+	"net"
 	"net/netip"
 	"strings"
 	"testing"
@@ -386,12 +387,23 @@ func decide(c jCase) *rp.Fail {
 				fail = rp.Failf("types.Version/roundtrip", "%s decoded as %04x, want %04x", js, uint16(got), c.U)
 			}
 		case "MacAddress":
+			// 6 octets (what controllers have), or the other lengths a hardware address can have (EUI-64: 8, InfiniBand: 20) - a
+			// MacAddress is a net.HardwareAddr
+			mac := types.MacAddress(c.MAC[:])
+			switch c.N[3] % 8 {
+			case 6:
+				mac = append(append(types.MacAddress{}, c.MAC[:3]...), 0xff, 0xfe, c.MAC[3], c.MAC[4], c.MAC[5])
+				ev.Class("mac/8-octets", 1)
+			case 7:
+				mac = append(append(append(append(types.MacAddress{}, c.MAC[:]...), c.IP[:]...), c.MAC[:]...), c.IP[:]...)
+				ev.Class("mac/20-octets", 1)
+			}
 			var got types.MacAddress
-			js, f := roundtrip("types.MacAddress", types.MacAddress(c.MAC[:]), &got)
+			js, f := roundtrip("types.MacAddress", mac, &got)
 			if f != nil {
 				fail = f
-			} else if api.MACText(got) != api.MACText(types.MacAddress(c.MAC[:])) {
-				fail = rp.Failf("types.MacAddress/roundtrip", "%s decoded as %v", js, got)
+			} else if net.HardwareAddr(got).String() != net.HardwareAddr(mac).String() {
+				fail = rp.Failf("types.MacAddress/roundtrip", "%s decoded as %v (%d octets; encoded value: %v, %d octets)", js, got, len(got), net.HardwareAddr(mac), len(mac))
 			}
 		case "CardFormat":
 			cf := types.CardFormat(c.N[0] % 2)
